@@ -219,7 +219,7 @@ pub assume_specification[ <Composer as core::ops::Index<Witness>>::index ](c: &C
     f.replace("y.invert().map(|y| x * (-y))",
               "match y.invert() { Some(y) => { proof { lemma_out_general(s.q(3), cv(y), cv(x)); } Some(x * (-y)) }, None => None }",
               rule="D9 (Option::map(closure) => its defining match) + proof hint")
-    f.before("let output =", """proof {
+    f.after("let c =", """proof {
     lemma_out_one(cv(x));
     lemma_out_minus_one(cv(x));
     lemma_md_small(cv(x));
